@@ -167,7 +167,10 @@ def main(argv=None):
             o["checks"] = r.get("checks")
             o["cmd"] = r.get("cmd")
             if r["status"] == "ok":
-                if r["covers"] < 1 or r["covers_sat"] != r["covers"]:
+                if ob.get("should_panic"):
+                    # Kani reports success for a #[kani::should_panic] harness only if a panic IS reachable
+                    o["status"] = "discharged"
+                elif r["covers"] < 1 or r["covers_sat"] != r["covers"]:
                     o["status"] = "undecided"
                     o["reason"] = "vacuity guard: %d of %d cover properties satisfied" % (r["covers_sat"], r["covers"])
                 else:
